@@ -1,4 +1,6 @@
 import PSO.Proofs.RaftDemo
+import PSO.Proofs.NodeTickMonotone
+import PSO.Proofs.NodeTickBridge
 
 /-!
 # C04 — committed positions are majority-backed and never change; indices only advance
@@ -62,6 +64,28 @@ theorem leader_commit_guard {N : Nat} {s s' : State} {n i : Nat} (hs : step N s 
   · rename_i hg
     exact ⟨hg.2.1, hg.2.2.2.2.1, isMajority_iff.mp hg.2.2.2.2.2⟩
   · cases hs
+
+/-! ## Node level (`PSO.NodeTick`, the handler-level mirror of `_onTick` and the vote / ack handlers) -/
+
+/-- Every modelled handler of the real node (tick, `request_vote`, `response_vote`, `next_node_idx`,
+connection callbacks) keeps the commit index from moving backwards … -/
+theorem handler_commit_monotone (c : PSO.NodeTick.Config) (s : PSO.NodeTick.NodeState) (e : PSO.NodeTick.Event) :
+    s.commit ≤ (PSO.NodeTick.step c s e).1.commit :=
+  PSO.NodeTick.step_commit_monotone c s e
+
+/-- … and the applied index. -/
+theorem handler_applied_monotone (c : PSO.NodeTick.Config) (s : PSO.NodeTick.NodeState) (e : PSO.NodeTick.Event) :
+    s.lastApplied ≤ (PSO.NodeTick.step c s e).1.lastApplied :=
+  PSO.NodeTick.step_applied_monotone c s e
+
+/-- The commit loop of the leader's tick advances only to an index of the current term that a majority
+of the voters has acknowledged — i.e. it satisfies the guard of the cluster model's `advanceCommit`. -/
+theorem tick_commit_advance_is_guarded (s : PSO.NodeTick.NodeState)
+    (h : PSO.NodeTick.nextCommit s ≠ s.commit) :
+    isMajority (s.others.length + 1) (PSO.NodeTick.commitCount s.others s.matchIndex (PSO.NodeTick.nextCommit s)) = true ∧
+    PSO.NodeTick.termAt s.log (PSO.NodeTick.nextCommit s) = some s.term ∧ s.commit < PSO.NodeTick.nextCommit s :=
+  let r := PSO.NodeTick.nextCommit_spec s h
+  ⟨r.1, r.2.1, r.2.2.1⟩
 
 /-- Non-vacuity: in the demo run nodes 0 and 1 report positions 0..2 committed, node 2 nothing. -/
 example : ∃ s, Reachable 3 s ∧ (s.nodes 0).commit = 2 ∧ (s.nodes 1).commit = 2 ∧ (s.nodes 2).commit = 0 := by
